@@ -32,9 +32,10 @@ From CC Require Import Model.AsmSel Model.InlineRename Model.WfCode Proofs.AsmLe
     to be requested by the corr-S pass *)
 Theorem C13_asm_sel_legal : forall sch m e high m' sg em,
   data_mnemonic m = true -> data_operand e = true ->
+  expr_wf e ->
   asm_sel sch m e high = AEmit m' sg em ->
   (AsmSel.is_st m = true -> shape_of (operand_of (e_op em)) <> ShImm) ->
-  resolve m' (shape_of (operand_of (e_op em))) (popnd_zp e) <> None.
+  resolve m' (shape_of (operand_of (e_op em))) (popnd_zp e (e_op em)) <> None.
 Proof. exact asm_sel_legal. Qed.
 
 (** read-modify-write mnemonics: legal exactly for memory, memory+X (and the accumulator for
@@ -43,7 +44,7 @@ Theorem C13_asm_sel_legal_rmw : forall sch m e high m' sg em,
   rmw_mnemonic m = true -> rmw_operand e = true ->
   asm_sel sch m e high = AEmit m' sg em ->
   shape_of (operand_of (e_op em)) <> ShImm ->
-  resolve m' (shape_of (operand_of (e_op em))) (popnd_zp e) <> None.
+  resolve m' (shape_of (operand_of (e_op em))) (popnd_zp e (e_op em)) <> None.
 Proof. exact asm_sel_legal_rmw. Qed.
 
 (** inlining: the suffixing of labels is injective in (counter, label) ... *)
